@@ -215,6 +215,11 @@ func (w *world) newStore(cacheKind string, dead bool, freshCfg bool) {
 		case x < 6:
 		case x < 8:
 			w.svc.script[n] = repeat("fail", 1+r.Intn(15))
+			if r.Intn(3) == 0 {
+				// unavailable for half a minute to a minute and a half, then back: with a context
+				// that has not ended, construction keeps asking and succeeds
+				w.svc.script[n] = repeat("fail", 18+r.Intn(16))
+			}
 		case x == 8:
 			w.svc.script[n] = repeat("fail", 60)
 			needDeadline = true
